@@ -133,7 +133,7 @@ def rule_float(c, prog):
         rt = {}
         for arm in rm["arms"]:
             for alt in tables.pat_alts(arm["pat"]):
-                b = core.strip(arm["body"])
+                b = tables.unwrap_ok_some(core.strip(arm["body"]))      # `Ok(match ..)` or `match .. => Ok(..)`
                 if alt[0] == "lit":
                     rt[alt[1]] = vname(b.get("def", "")) if b.get("k") == "Path" else core.fingerprint(b, 3)
                 else:
